@@ -14,6 +14,8 @@ Monitors (per log call, matched by a unique token in its format string)
                  outermost scope; outside every scope the root logger
   level          record.levelno is the requested level
   message        the formatted message ends with `fmt % args` (exactly `fmt % args` outside every scope)
+  unique-identifier  a scope's identifier was never used by any other scope this worker process has seen (earlier forests included -
+                 their scopes are long gone and collected)
   tagged         inside a scope the message contains that scope's trace id, name and identifier
   exception      a passed exception is attached to the record
   never-raises   no ctx.log_* call raises (also when format and arguments disagree)
@@ -48,7 +50,7 @@ ASSUMPTIONS = [
     "calls whose format and arguments disagree are only required not to raise",
     "logging.raiseExceptions keeps its default; the capturing handler does not format at emit time, formatting is attempted by the monitor",
 ]
-MINIMUMS = {"monitor:delivered": 10000, "monitor:tagged": 8000, "monitor:trace-id": 3000, "inherited_trace_ids": 1000, "calls_with_args_under_percent_names": 300, "own_logger_below_root": 500, "calls_outside_scope": 500, "spawned_task_calls": 300}
+MINIMUMS = {"monitor:delivered": 10000, "monitor:tagged": 8000, "monitor:trace-id": 3000, "inherited_trace_ids": 1000, "calls_with_args_under_percent_names": 300, "own_logger_below_root": 500, "calls_outside_scope": 500, "spawned_task_calls": 300, "monitor:unique-identifier": 3000}
 JOBS = {"quick": 4, "thorough": 16}
 LEVEL_TEXT = (
     "All forests of up to 3 nodes x {own logger?} x {own trace id?} per node with rotating name classes, and sampled forests up to 2 x 5 nodes, are executed with log calls of every level, "
@@ -172,6 +174,10 @@ def log_steps(steps: list[dict[str, Any]], task: str, out: dict[int, tuple[dict[
             log_steps(s["body"], s["name"], out)
 
 
+SEEN_IDS: dict[str, tuple[int, str]] = {}  # every scope identifier this worker process has ever seen -> (forest number, scope)
+RUNS = {"n": 0}
+
+
 def judge(R: Recorder, forest: list[dict[str, Any]], prog: list[dict[str, Any]], chooser: Chooser, out: dict[str, Any]) -> None:
     W: World = out["W"]
     rec = {"forest": forest, "program": prog, "choices": [c for c, _ in chooser.trace]}
@@ -222,6 +228,19 @@ def judge(R: Recorder, forest: list[dict[str, Any]], prog: list[dict[str, Any]],
             root_ids.append(tid)
         R.monitor("trace-id", ok, where={**where, "kind": "trace-id-not-inherited" if (parent is not None and not b.get("trace_id")) else "trace-id-wrong"}, detail=detail, case=rec)
     R.count("inherited_trace_ids", inherited)
+    # ---- identifiers are unique over the whole life of the process: across this forest and every earlier one ---------
+    RUNS["n"] += 1
+    for name in blocks:
+        m = W.metrics.get(name)
+        if m is None:
+            continue
+        ident = m.identifier
+        earlier = SEEN_IDS.get(ident)
+        ok = isinstance(ident, str) and len(ident) > 0 and earlier is None
+        R.monitor("unique-identifier", ok, where={"kind": "identifier-reused", "same_forest": earlier is not None and earlier[0] == RUNS["n"]},
+                  detail=f"scope {name} of forest #{RUNS['n']} in this worker has identifier {ident!r}, already used by scope {earlier and earlier[1]} of forest #{earlier and earlier[0]}", case=rec)
+        SEEN_IDS[ident] = (RUNS["n"], name)
+    R.flags["identifiers_remembered_per_worker"] = max(R.flags.get("identifiers_remembered_per_worker", 0), len(SEEN_IDS))
     # ---- per call --------------------------------------------------------------------------------------
     for lid, (step, task) in calls.items():
         scope = sites.get(("log", lid))  # type: ignore[call-overload]
